@@ -674,7 +674,8 @@ impl C15 {
                 match (p, got) {
                     (Err(_), Err(_)) => o.class("malformed-rejected"),
                     (Err(e), Ok(g)) => {
-                        if typ == "yaml" {
+                        // bytes that are not UTF-8 are not a document of any of the three formats
+                        if typ == "yaml" && std::str::from_utf8(bytes).is_ok() {
                             o.class("decoder-disagreement");
                         } else {
                             o.fail(&format!("C15/{}-malformed-accepted", typ), format!("the {} decoder rejects this text ({}) but include yields {}\ntext:\n{}", typ, e, clipv(&g.show()), clipv(&shown)));
@@ -798,7 +799,16 @@ fn corrupt(text: &str, t: &mut Tape) -> Vec<u8> {
     // operate on char boundaries so the result stays UTF-8 (include reads text)
     let idxs: Vec<usize> = text.char_indices().map(|(i, _)| i).collect();
     let at = idxs[t.choice(idxs.len())];
-    match t.choice(4) {
+    match t.choice(5) {
+        4 => {
+            // a stray byte that makes the file invalid UTF-8 (inserted, or replacing a character)
+            let bad: &[u8] = *t.pick(&[&b"\xe9"[..], &b"\xff"[..], &b"\xc3"[..], &b"\xed\xa0\x80"[..], &b"\xc0\xaf"[..]]);
+            let end = if t.chance(1, 2) { at } else { idxs.iter().find(|i| **i > at).copied().unwrap_or(b.len()) };
+            let mut v = b[..at].to_vec();
+            v.extend_from_slice(bad);
+            v.extend_from_slice(&b[end..]);
+            v
+        }
         0 => b[..at].to_vec(),
         1 => {
             let ins = *t.pick(&["{", "}", "[", "]", "\"", ":", ",", "=", "'", "-", " ", "\n"]);
@@ -882,7 +892,18 @@ impl Property for C15 {
                     let n = t.choice(40);
                     (0..n).map(|_| gen_char(&mut t)).collect::<String>()
                 };
-                self.check_raw("str", text.as_bytes())
+                if t.chance(1, 5) {
+                    // not text: a stray byte somewhere
+                    let mut bytes = text.into_bytes();
+                    let at = t.choice(bytes.len() + 1);
+                    bytes.insert(at, *t.pick(&[0xe9u8, 0xff, 0xc3, 0x80]));
+                    if std::str::from_utf8(&bytes).is_ok() {
+                        bytes.push(0xff);
+                    }
+                    self.check_raw("str", &bytes)
+                } else {
+                    self.check_raw("str", text.as_bytes())
+                }
             }
             4 => {
                 let n = t.choice(40);
@@ -895,8 +916,9 @@ impl Property for C15 {
                 self.check_raw(typ, &bytes)
             }
             5 => {
-                let typ = *t.pick(&["xml", "jsn", "b64url", "ini", "string"]);
-                self.check_raw(typ, b"{}")
+                let typ = *t.pick(&["xml", "jsn", "b64url", "ini", "string", "yml", "STR", "Json"]);
+                let data: &[u8] = *t.pick(&[&b"{}"[..], &b""[..], &b" "[..], &b"a"[..]]);
+                self.check_raw(typ, data)
             }
             _ => {
                 // one data file included several times under different types in one build
